@@ -268,7 +268,8 @@ func (r *RootAssertionNode) addConsumptionsForReceiverFields(call *ast.CallExpr,
 // addConsumptionsForReceiverFields adds consumptions for param fields at function call
 func (r *RootAssertionNode) addConsumptionsForArgFields(call *ast.CallExpr, funcName *ast.Ident, fieldContext *structfield.FieldContext) {
 	if funcObj, ok := r.Pass().TypesInfo.ObjectOf(funcName).(*types.Func); ok {
-		for paramID, param := range call.Args {
+		// A call through a method expression passes the receiver first: funcArgsFromCallExpr drops it.
+		for paramID, param := range r.funcArgsFromCallExpr(call) {
 			r.addConsumptionsForArgFieldsAtIndex(param, funcObj, paramID, fieldContext)
 		}
 	}
@@ -382,8 +383,8 @@ func (r *RootAssertionNode) addProductionForFuncCallReceiverFields(call *ast.Cal
 // effect the function call can have on the fields.
 func (r *RootAssertionNode) addProductionForFuncCallArgFields(funcName *ast.Ident, call *ast.CallExpr, fieldContext *structfield.FieldContext) {
 	if funcObj, ok := r.Pass().TypesInfo.ObjectOf(funcName).(*types.Func); ok {
-		for paramIdx := range call.Args {
-			param := call.Args[paramIdx]
+		// A call through a method expression passes the receiver first: funcArgsFromCallExpr drops it.
+		for paramIdx, param := range r.funcArgsFromCallExpr(call) {
 			r.addProductionForFuncCallArgFieldsAtIndex(param, funcObj, paramIdx, fieldContext)
 		}
 	}
